@@ -1255,9 +1255,12 @@ pub fn mem_churn_scenario(opts: ExecOpts, cycle_choices: &'static [u32]) -> Boxe
         prop_oneof![3 => Just(false), 1 => Just(true)], // every receiver gone: only senders churn
         // a lagging episode before the measured phase: one kept sender handle does not operate
         // for this many cycles (memory may pile up meanwhile), then operates every cycle
-        prop_oneof![1 => Just(0u8), 1 => 8u8..48],
+        // (lag, how the long-lived receiver receives, how the long-lived sender sends): "keeps
+        // operating" ranges over every entry point (round-5 seed C17-5: a receiver that only ever
+        // calls recv_view and always finds a value never looked at the epoch signal)
+        (prop_oneof![1 => Just(0u8), 1 => 8u8..48], 0u8..8, 0u8..3),
     )
-        .prop_map(move |(q, ci, rounds, early_drop, second, traffic, leftover, sched, rx_gone, lag)| {
+        .prop_map(move |(q, ci, rounds, early_drop, second, traffic, leftover, sched, rx_gone, (lag, how, send_how))| {
             let c = cycle_choices[ci];
             let bcast = q.flavour == Flavour::Broadcast;
             if rx_gone {
@@ -1279,15 +1282,24 @@ pub fn mem_churn_scenario(opts: ExecOpts, cycle_choices: &'static [u32]) -> Boxe
             if early_drop {
                 main.push(Op::WithCloneRx { rx: 0, unsub: false });
             }
+            // the concurrent variant is kept short: it doubles the work per cycle
+            let traffic = traffic && c <= 1000;
+            // blocking and in-place receives need a stream nobody else takes values from
+            let how = if traffic && matches!(how, 3 | 4 | 5) { 0 } else { how };
+            let view = matches!(how, 4 | 5);
+            // a single-consumer receiver cannot be cloned or add streams: on a broadcast queue the
+            // churn rounds then work from a second stream
+            let second = second || (view && bcast);
             if second && bcast {
                 main.push(Op::AddStream { rx: 0 });
+            }
+            if view {
+                main.push(Op::IntoSingle { rx: if second && bcast { sel(0, 2) } else { 0 } });
             }
             if lag > 0 {
                 main.push(Op::CloneTx { tx: 0 }); // the controller's senders: [long-lived, lagging]
             }
             let mut progs: Vec<Prog> = vec![Prog { ops: vec![], ret: false }];
-            // the concurrent variant is kept short: it doubles the work per cycle
-            let traffic = traffic && c <= 1000;
             if traffic {
                 main.push(Op::CloneTx { tx: 0 });
                 main.push(Op::CloneRx { rx: 0 });
@@ -1304,9 +1316,34 @@ pub fn mem_churn_scenario(opts: ExecOpts, cycle_choices: &'static [u32]) -> Boxe
                 });
             }
             let mut body: Vec<Op> = rounds.iter().flat_map(|r| mpmc_round(r, q.flavour)).collect();
+            let rx0 = if second && bcast { sel(0, 2) } else { 0 };
+            if view && bcast {
+                // the rounds work from the second stream (handle 1 of 2)
+                let base = sel(1, 2);
+                for o in body.iter_mut() {
+                    match o {
+                        Op::AddStream { rx } | Op::WithCloneRx { rx, .. } | Op::IntoSingle { rx } | Op::IntoMulti { rx } | Op::Transform { rx }
+                            if *rx == 0 =>
+                        {
+                            *rx = base
+                        }
+                        _ => {}
+                    }
+                }
+            } else if view {
+                // the rounds may have left the receiver shared: make it single again
+                body.push(Op::IntoSingle { rx: 0 });
+            }
             // the long-lived handles operate every cycle
-            body.push(Op::TrySend { tx: 0 });
-            body.push(Op::TryRecv { rx: 0 });
+            body.push(if send_how == 2 { Op::StartSend { tx: 0, by_ref: true } } else { Op::TrySend { tx: 0 } });
+            body.push(match how {
+                3 => Op::RecvN { rx: rx0, k: 1, view: false },
+                4 => Op::TryView { rx: rx0 },
+                5 => Op::RecvN { rx: rx0, k: 1, view: true },
+                6 if q.futures => Op::Poll { rx: rx0, by_ref: true },
+                7 if !q.futures => Op::TryIter { rx: rx0, max: 1, variant: 0 },
+                _ => Op::TryRecv { rx: rx0 },
+            });
             if second && bcast {
                 body.push(Op::TryRecv { rx: 65535 });
             }
